@@ -50,6 +50,8 @@ var probeSchema = ir.Schema{
 		{Name: "fDef", Arg: ir.Field{Name: "v", Type: "Def"}},
 		{Name: "fIntsR", Arg: ir.Field{Name: "v", Type: "[Int]"}},
 		{Name: "fSing", Arg: ir.Field{Name: "v", Type: "Sing"}},
+		{Name: "fEs", Arg: ir.Field{Name: "v", Type: "[E]"}},
+		{Name: "fLL", Arg: ir.Field{Name: "v", Type: "[[Int]]"}},
 	},
 }
 
@@ -89,7 +91,9 @@ func probes() pbt.Probes {
 		fSynth: probeOf(fSynth, Case{Schema: probeSchema, Decls: []ir.VarDecl{{Name: "v", Type: "Int"}}, Query: "query($v: Int){ fIntsR(v: [$v]) }", VarsForm: "object", Vars: `{"v":"zq5x8k2m"}`, Break: "probe"}),
 		fIntMin: probeOf(fIntMin, Case{Schema: probeSchema, Decls: []ir.VarDecl{{Name: "v", Type: "Int", Default: intMin}}, Query: "query($v: Int = " + intMin + "){ fInt(v: $v) }", VarsForm: "object", Vars: `{"v":1}`, Break: "probe"}),
 		fNullDflt: probeOf(fNullDflt, Case{Schema: probeSchema, Decls: []ir.VarDecl{{Name: "v", Type: "[Int!]", Default: "null"}}, Query: "query($v: [Int!] = null){ fIntsR(v: $v) }", VarsForm: "object", Vars: "{}", Break: "probe"}),
-		fSingle: probeOf(fSingle, probeCase("fSing", "Sing", `{"v":{}}`, "object")),
+		fSingle: probeOf(fSingle, probeCase("fSing", "Sing", `{"v":{}}`, "object"),
+			Case{Schema: probeSchema, Decls: []ir.VarDecl{{Name: "v", Type: "[[Int]]", Default: "[1]"}}, Query: "query($v: [[Int]] = [1]){ fLL(v: $v) }", VarsForm: "object", Vars: "{}", Break: "probe"}),
+		fEnumList: probeOf(fEnumList, probeCase("fEs", "[E]", `{"v":[{}]}`, "object")),
 		fNoPath: probeOf(fNoPath, probeCase("fIn", "In", `{"v":{"a":1,"c":{}}}`, "object"), probeCase("fIn", "In", `{"v":{"a":1,"c":{"a":2,"c":"zq5x8k2m"}}}`, "object"),
 			probeCase("fIntsR", "[Int!]", `{"v":[null]}`, "object")),
 	}
